@@ -162,7 +162,7 @@ def text_case(draw):
     for g in gaps:
         edges.append(edges[-1] + g)
     binning = {"edges": edges, "closed": draw(gen.closed_strategy)}
-    c = draw(gen.sampled_case(binning=binning, elem=text_value, min_samples=1, max_samples=6))
+    c = draw(gen.sampled_case(binning=binning, elem=text_value, min_samples=1, max_samples=draw(st.sampled_from([6, 6, 14]))))
     c["cls"] = draw(st.sampled_from(["CorrData", "RedshiftData", "HistData"]))
     return c
 
